@@ -26,10 +26,30 @@ def noExtraInternal (before after : FdTable) (allowed : List Fd) : Bool :=
 def noLowCloexec (before t : FdTable) : Bool :=
   t.openFds.all fun (fd, e) => !(decide (fd < 10) && e.cloexec) || before.get fd == some e
 
+/-- "redirections on `exec` persist": what the last redirection of the list asked for is there
+    afterwards (a file on that descriptor, not CLOEXEC; a here-document; a closed descriptor) -/
+def lastPersisted (before : FdTable) (rs : List Redir) (tr : Trace) : Bool :=
+  match rs.getLast? with
+  | none => true
+  | some r =>
+    match r.body with
+    | .file _ p =>
+      if p == 3 || p == 4 || p == 5 || p == 6 then
+        match tr.t.get r.fd with
+        | some e => (ofdAt tr.w e.ofd).file == p && !e.cloexec && before.get r.fd != some e
+        | none => false
+      else true
+    | .hereDoc _ => (tr.t.get r.fd).isSome && tr.t.get r.fd != before.get r.fd
+    | .dup _ .closeIt => (tr.t.get r.fd).isNone
+    | _ => true
+
 def specVerdict (before : FdTable) (k : Kind) (rs : List Redir) (tr : Trace) : String :=
-  let persists := (k == .exec || k == .commandExec) && tr.status == some 0
+  -- all redirections succeeded (a redirection error gives 2): on `exec` they persist whether or not
+  -- an operand could be invoked
+  let persists := k.isExec && tr.status != some 2 && tr.exited != some 2
   if !persists && !sameTable before tr.t then "FAIL:table-not-restored"
   else if !noExtraInternal before tr.t (if persists then rs.map (·.fd) else []) then "FAIL:descriptor-left-open"
+  else if persists && !lastPersisted before rs tr then "FAIL:exec-redirection-did-not-persist"
   else if !noLowCloexec before tr.t then "FAIL:cloexec-below-10-left"
   else match tr.during with
     | some (_, td) =>
